@@ -24,7 +24,7 @@ ASSUMPTIONS = ['PRNG (Mersenne twister) output counts as high-entropy data',
 
 def budget(tier):
     if tier == 'quick':
-        return {'shards': 16, 'examples': 120, 'wall': 240}
+        return {'shards': 16, 'examples': 400, 'wall': 240}
     return {'shards': 16, 'examples': 12000, 'wall': 2400}
 
 
